@@ -150,10 +150,12 @@ pub struct HookLog<I> {
 	pub depth: u32,
 	pub max_depth: u32,
 	pub unbalanced: bool,
+	/// read attempts (successful or not)
+	pub reads: u32,
 }
 impl<I> HookLog<I> {
 	pub fn new(inner: I) -> Self {
-		HookLog { inner, used: 0, calls: 0, depth: 0, max_depth: 0, unbalanced: false }
+		HookLog { inner, used: 0, calls: 0, depth: 0, max_depth: 0, unbalanced: false, reads: 0 }
 	}
 }
 impl<I: Input> Input for HookLog<I> {
@@ -161,9 +163,11 @@ impl<I: Input> Input for HookLog<I> {
 		self.inner.remaining_len()
 	}
 	fn read(&mut self, into: &mut [u8]) -> Result<(), Error> {
+		self.reads += 1;
 		self.inner.read(into)
 	}
 	fn read_byte(&mut self) -> Result<u8, Error> {
+		self.reads += 1;
 		self.inner.read_byte()
 	}
 	fn descend_ref(&mut self) -> Result<(), Error> {
